@@ -1277,7 +1277,8 @@ class DiskRefsContainer(RefsContainer):
             # This avoids fsync when ref is unchanged but still detects lock conflicts
             current_ref = self.read_loose_ref(realname)
             if current_ref is None:
-                current_ref = packed_refs.get(realname, None)
+                # reread: the snapshot taken before the lock may be stale
+                current_ref = self.get_packed_refs().get(realname, None)
 
             if current_ref is not None and current_ref == new_ref:
                 # Ref already has desired value, abort write to avoid fsync
